@@ -120,6 +120,13 @@ static inline size_t xc_strlen(const char *s)
 /* std::string as seen by slices that only read it: pointer + length (owning semantics not modelled) */
 typedef struct xc_str { const char *data; size_t len; } xc_str;
 
+/* ldexp(x, 32) = x * 2^32 exactly (power-of-two scaling; CBMC has no body for ldexp); any other exponent is an obligation */
+static inline double xc_ldexp(double x, int e)
+{
+  __CPROVER_assert(e == 32, "xc_ldexp: only the exponent 32 is modelled");
+  return x * 4294967296.0;
+}
+
 /* an object the extracted code only passes around */
 typedef struct xc_opaque { char xc_unused; } xc_opaque;
 
